@@ -144,11 +144,22 @@ func (writer *SSTableStreamWriter) WriteNext(key []byte, value []byte) error {
 	return nil
 }
 
+// writeBloomFilter does what bloomfilter.Filter.WriteFile does, but reports a failed write: the library's WriteFile
+// overwrites the error of the write with the result of closing the file.
+func writeBloomFilter(filter *bloomfilter.Filter, path string) error {
+	f, err := os.Create(path)
+	if err != nil {
+		return err
+	}
+	_, err = filter.WriteTo(f)
+	return errors.Join(err, f.Close())
+}
+
 func (writer *SSTableStreamWriter) Close() (err error) {
 	err = errors.Join(writer.indexWriter.Close(), writer.dataWriter.Close())
 
 	if writer.opts.enableBloomFilter && writer.bloomFilter != nil {
-		_, bErr := writer.bloomFilter.WriteFile(filepath.Join(writer.opts.basePath, BloomFileName))
+		bErr := writeBloomFilter(writer.bloomFilter, filepath.Join(writer.opts.basePath, BloomFileName))
 		if bErr != nil {
 			err = errors.Join(err, fmt.Errorf("error in writing bloom filter  in '%s': %w", writer.opts.basePath, bErr))
 		}
